@@ -1,6 +1,7 @@
 import BoltonsVerif.Common
 import BoltonsVerif.C13.Model
 import BoltonsVerif.C13.Session
+import BoltonsVerif.C13.Hygiene
 /-
 C13 line protocol.  One line = one whole case (a function, the injected / expected
 lists, the options, and any number of calls):
@@ -119,10 +120,34 @@ def showAnns (w : Func) (mask : List Name) : String :=
   ",".intercalate ((paramNames w).map fun n =>
     if mask.contains n then s!"{n}:*" else s!"{n}:{showOpt (get? n w.ann)}")
 
-def outcome (f w : Func) (plain : Bool) (c : Call) : String :=
+/-- the spellings the harness uses: `_call` = 90, `__call` = 92, longer ones are never parameter
+    names of a case; `_func` = 91 -/
+def cnId : Nat → Name
+  | 0 => 90
+  | 1 => 92
+  | k + 2 => 1000000 + k
+
+def funcKeyId : Name := 91
+
+/-- does the body of a function built by `update_wrapper` reach the user's wrapper (`Hygiene.lean`)?
+    `byWrapper = false`: the body was written by the harness itself (builder histories) -/
+def reaches (w : Func) (byWrapper : Bool) : Bool :=
+  !byWrapper || (FB.fromFunc w).callee cnId funcKeyId == Callee.userWrapper
+
+/-- the function name of a case: `fn`, `_call`, `_func`, `<lambda>` -/
+def fnameId : Nat → Name
+  | 1 => 90
+  | 2 => 91
+  | 3 => 85
+  | _ => 93
+
+def showName (f w : Func) : String := if w.name = f.name then "1" else s!"?{w.name}"
+
+def outcome (f w : Func) (plain : Bool) (c : Call) (byWrapper : Bool := false) : String :=
   match bind (sigOf w) c with
   | none => "E"
   | some _ =>
+    if !reaches w byWrapper then "!shadowed" else
     match callWrapper w c with
     | none => "?"
     | some c' =>
@@ -171,6 +196,7 @@ def outcomeStack (f : Func) (ws : List Func) (plain : Bool) (c : Call) : String 
     match bind (sigOf top) c with
     | none => "E"
     | some _ =>
+      if !(ws.all fun w => reaches w true) then "!shadowed" else
       match travel ws c with
       | none => "?"
       | some c' =>
@@ -196,14 +222,14 @@ def bops? (s : String) : Option (List BOp) :=
   if s = "-" then some [] else (splitOnChar s ',').mapM bop?
 
 /-- builder histories: `B <the 11 function fields> <ops> <call>*`, ops = `r3,a6:-,a6:41,k6:-,k6:42` -/
-def handleB (toks : List String) : String :=
+def handleB (fn : Name) (toks : List String) : String :=
   match toks with
   | a :: d :: va :: ko :: kd :: vk :: an :: rt :: asy :: doc :: md :: ops :: calls =>
     match natList? a, natList? d, optNat? va, natList? ko, pairs? kd, optNat? vk, pairs? an,
           optNat? rt, asy.toNat?, optNat? doc, optNat? md, bops? ops, calls.mapM call? with
     | some a, some d, some va, some ko, some kd, some vk, some an, some rt, some asy, some doc,
       some md, some ops, some calls =>
-      let f : Func := ⟨1, 1, doc, md, a, va, ko, vk, d, kd, an, rt, asy != 0, none, []⟩
+      let f : Func := ⟨1, fn, doc, md, a, va, ko, vk, d, kd, an, rt, asy != 0, none, []⟩
       match (FB.fromFunc f).run ops with
       | .error e => s!"err {showErr e}"
       | .ok fb =>
@@ -215,7 +241,7 @@ def handleB (toks : List String) : String :=
           let anns := showAnns w (readded ops)
           let outs := calls.map (outcome f w false)
           let asyS := if w.isAsync then "1" else "0"
-          s!"{hdr} ; S {showSig (sigOf w)} ; M {w.name} {showOpt w.doc} {showOpt w.module} {showOpt w.wrapped} {asyS} ; A {anns} r:{showOpt w.retAnn} ; {",".intercalate outs}"
+          s!"{hdr} ; S {showSig (sigOf w)} ; M {showName f w} {showOpt w.doc} {showOpt w.module} {showOpt w.wrapped} {asyS} ; A {anns} r:{showOpt w.retAnn} ; {",".intercalate outs}"
     | _, _, _, _, _, _, _, _, _, _, _, _, _ => "bad-op"
   | _ => "bad-op"
 
@@ -252,13 +278,13 @@ def showRes : Res → String
   | .skip => "s"
   | .edited => "m"
 
-def showFuncBlock (w : Func) (mask : List Name) (calls : Option (List Call)) : String :=
+def showFuncBlock (f w : Func) (mask : List Name) (byWrapper : Bool) (calls : Option (List Call)) : String :=
   let anns := showAnns w mask
   let asyS := if w.isAsync then "1" else "0"
-  let base := s!"S {showSig (sigOf w)} ; M {w.name} {showOpt w.doc} {showOpt w.module} {showOpt w.wrapped} {asyS} ; A {anns} r:{showOpt w.retAnn}"
+  let base := s!"S {showSig (sigOf w)} ; M {showName f w} {showOpt w.doc} {showOpt w.module} {showOpt w.wrapped} {asyS} ; A {anns} r:{showOpt w.retAnn}"
   match calls with
   | none => base
-  | some cs => s!"{base} ; C {",".intercalate (cs.map (outcome w w false))}"
+  | some cs => s!"{base} ; C {",".intercalate (cs.map fun c => outcome w w false c byWrapper)}"
 
 def reqMask : Req → List Name
   | .wrap _ inj exp _ => readdedW inj exp
@@ -278,6 +304,14 @@ def masks : List (List Name) → List Req → List Res → List (List Name)
   | ms, _ :: rs, _ :: qs => masks ms rs qs
   | ms, _, _ => ms
 
+/-- per function of a session: was it built by `update_wrapper` (then its body is the one
+    `update_wrapper` writes, callee picked by the loop of `Hygiene.lean`)? -/
+def byWrap : List Bool → List Req → List Res → List Bool
+  | bs, .wrap _ _ _ _ :: rs, .built :: qs => byWrap (bs ++ [true]) rs qs
+  | bs, _ :: rs, .built :: qs => byWrap (bs ++ [false]) rs qs
+  | bs, _ :: rs, _ :: qs => byWrap bs rs qs
+  | bs, _, _ => bs
+
 def sibling? (s : String) (f : Func) : Option (Option Func) :=
   if s = "-" then some none else
   match splitOnChar s ';' with
@@ -288,7 +322,7 @@ def sibling? (s : String) (f : Func) : Option (Option Func) :=
     | _, _, _, _, _, _ => none
   | _ => none
 
-def handleW (toks : List String) : String :=
+def handleW (fn : Name) (toks : List String) : String :=
   match toks with
   | a :: d :: va :: ko :: kd :: vk :: an :: rt :: asy :: doc :: md :: sib :: rest =>
     match natList? a, natList? d, optNat? va, natList? ko, pairs? kd, optNat? vk, pairs? an,
@@ -296,31 +330,30 @@ def handleW (toks : List String) : String :=
           (rest.dropWhile isStepTok).mapM call? with
     | some a, some d, some va, some ko, some kd, some vk, some an, some rt, some asy, some doc,
       some md, some reqs, some calls =>
-      let f : Func := ⟨1, 1, doc, md, a, va, ko, vk, d, kd, an, rt, asy != 0, none, []⟩
+      let f : Func := ⟨1, fn, doc, md, a, va, ko, vk, d, kd, an, rt, asy != 0, none, []⟩
       match sibling? sib f with
       | none => "bad-op"
       | some sb =>
         let base := f :: sb.toList
         let fin := run (St.init base) reqs
         let ms := masks (base.map fun _ => []) reqs fin.2
+        let bw := byWrap (base.map fun _ => false) reqs fin.2
         let blocks := fin.1.view.zipIdx.map fun (w, i) =>
-          showFuncBlock w ((ms[i]?).getD []) (if i < base.length then none else some calls)
+          showFuncBlock f w ((ms[i]?).getD []) ((bw[i]?).getD false) (if i < base.length then none else some calls)
         let res := if fin.2.isEmpty then "-" else ",".intercalate (fin.2.map showRes)
         " || ".intercalate (res :: blocks)
     | _, _, _, _, _, _, _, _, _, _, _, _, _ => "bad-op"
   | _ => "bad-op"
 
-def handle (line : String) : String :=
-  match words line with
-  | "B" :: toks => handleB toks
-  | "W" :: toks => handleW toks
+def handleP (fn : Name) (toks : List String) : String :=
+  match toks with
   | a :: d :: va :: ko :: kd :: vk :: an :: rt :: asy :: doc :: md :: inj :: exp :: fl :: calls =>
     match natList? a, natList? d, optNat? va, natList? ko, pairs? kd, optNat? vk, pairs? an,
           optNat? rt, asy.toNat?, optNat? doc, optNat? md, natList? inj, optPairs? exp, flags? fl,
           calls.mapM call? with
     | some a, some d, some va, some ko, some kd, some vk, some an, some rt, some asy, some doc,
       some md, some inj, some exp, some o, some calls =>
-      let f : Func := ⟨1, 1, doc, md, a, va, ko, vk, d, kd, an, rt, asy != 0, none, []⟩
+      let f : Func := ⟨1, fn, doc, md, a, va, ko, vk, d, kd, an, rt, asy != 0, none, []⟩
       match updateWrapper f inj exp o.1 with
       | .error e => s!"err {showErr e}"
       | .ok w1 =>
@@ -333,8 +366,24 @@ def handle (line : String) : String :=
         let fb := FB.fromFunc w
         let outs := calls.map (outcomeStack f (w :: ws) plain)
         let asyS := if w.isAsync then "1" else "0"
-        s!"S {showSig (sigOf w)} ; M {w.name} {showOpt w.doc} {showOpt w.module} {showOpt w.wrapped} {asyS} ; A {anns} r:{showOpt w.retAnn} ; D {showSpecs fb.sigSpecs} ; I {showSpecs (sortKwSpecs w.body)} ; {",".intercalate outs}"
+        s!"S {showSig (sigOf w)} ; M {showName f w} {showOpt w.doc} {showOpt w.module} {showOpt w.wrapped} {asyS} ; A {anns} r:{showOpt w.retAnn} ; D {showSpecs fb.sigSpecs} ; I {showSpecs (sortKwSpecs w.body)} ; {",".intercalate outs}"
     | _, _, _, _, _, _, _, _, _, _, _, _, _, _, _ => "bad-op"
   | _ => "bad-op"
+
+def dispatch (fn : Name) : List String → String
+  | "B" :: toks => handleB fn toks
+  | "W" :: toks => handleW fn toks
+  | toks => handleP fn toks
+
+/-- an optional first token `F<k>` says what the function is called (`fnameId`; default `fn`) -/
+def handle (line : String) : String :=
+  match words line with
+  | [] => "bad-op"
+  | t :: toks =>
+    if t.front = 'F' then
+      match (t.drop 1).toString.toNat? with
+      | some k => dispatch (fnameId k) toks
+      | none => "bad-op"
+    else dispatch (fnameId 0) (t :: toks)
 
 end C13.Driver
